@@ -66,6 +66,8 @@ thread_local! {
     static SENT: RefCell<Vec<(String, Binary, Option<u64>)>> = RefCell::new(vec![]);
     /// sub-messages of the handler-level response of the IBC entry points (canonical text incl. gas limit)
     static SUBLOG: RefCell<Vec<String>> = RefCell::new(vec![]);
+    /// the `msg` bytes (hex) of every `WasmMsg::Execute` among those sub-messages, in order (`subraw=`)
+    static SUBRAW: RefCell<Vec<String>> = RefCell::new(vec![]);
     /// what the chain answers to `IbcQuery::PortId` (`None`: the query fails); set by `query port env=…`
     static PORT: RefCell<Option<String>> = RefCell::new(None);
 }
@@ -250,6 +252,15 @@ fn log_subs(msgs: &[SubMsg]) {
         let mut l = l.borrow_mut();
         for m in msgs {
             l.push(render_sub(m));
+        }
+    });
+    // the wire: the JSON payload of a cw20 payout / refund (`send_amount`), byte for byte
+    SUBRAW.with(|l| {
+        let mut l = l.borrow_mut();
+        for m in msgs {
+            if let cosmwasm_std::CosmosMsg::Wasm(cosmwasm_std::WasmMsg::Execute { msg, .. }) = &m.msg {
+                l.push(hex(msg.as_slice()));
+            }
         }
     });
 }
@@ -796,6 +807,7 @@ impl Ics20Scen {
         FAULT.with(|f| f.set(false));
         SENT.with(|s| s.borrow_mut().clear());
         SUBLOG.with(|s| s.borrow_mut().clear());
+        SUBRAW.with(|s| s.borrow_mut().clear());
         let mut app = build_app();
         let api = MockApi::default();
         let pool: Vec<Addr> = (0..4).map(|i| api.addr_make(&format!("actor{i}"))).collect();
@@ -1049,6 +1061,7 @@ impl Ics20Scen {
     fn tx(&mut self, fault: bool, f: impl FnOnce(&mut IcsApp) -> AnyResult<AppResponse>) -> String {
         SENT.with(|s| s.borrow_mut().clear());
         SUBLOG.with(|s| s.borrow_mut().clear());
+        SUBRAW.with(|s| s.borrow_mut().clear());
         FAULT.with(|x| x.set(fault));
         let app = &mut self.app;
         let r = catch(move || f(app));
@@ -1088,13 +1101,15 @@ impl Ics20Scen {
                     None => "-".to_string(),
                     Some(d) => hex(d.as_slice()),
                 };
+                let subraw: Vec<String> = SUBRAW.with(|s| s.borrow().clone());
                 format!(
-                    "> ok ack={} sent={} sub={} pkt={} ackraw={}",
+                    "> ok ack={} sent={} sub={} pkt={} ackraw={} subraw={}",
                     ack,
                     if sent.is_empty() { "-".to_string() } else { sent.join(";") },
                     if sub.is_empty() { "-".to_string() } else { sub.join(";") },
                     if pkt.is_empty() { "-".to_string() } else { pkt.join(";") },
-                    ackraw
+                    ackraw,
+                    if subraw.is_empty() { "-".to_string() } else { subraw.join("+") }
                 )
             }
             Some(Err(_)) => "> err".to_string(),
